@@ -37,6 +37,7 @@ type decModel struct {
 	Walker      *decWalker
 	HasEndGroup bool
 	HasBadTag   bool
+	HasDepth    bool // prologue rejects an exhausted nesting budget: if input.Depth <= 0 { return …, err }
 }
 
 type unkSummary struct {
@@ -706,6 +707,44 @@ func (w *decWalker) ifStmt(t *ast.IfStmt, list []ast.Stmt, i *int) error {
 				}
 			}
 		}
+		// if o, ok := x.O.(*W); ok && o != nil && o.F != nil { v = o.F }   (continue the message the member already holds)
+		if ok && as.Tok == token.DEFINE && len(as.Lhs) == 2 && len(as.Rhs) == 1 && t.Else == nil && len(t.Body.List) == 1 {
+			if ta, isTA := ast.Unparen(as.Rhs[0]).(*ast.TypeAssertExpr); isTA && ta.Type != nil {
+				oID, _ := as.Lhs[0].(*ast.Ident)
+				okID, _ := as.Lhs[1].(*ast.Ident)
+				body, isAs := t.Body.List[0].(*ast.AssignStmt)
+				if oID != nil && okID != nil && isAs && body.Tok == token.ASSIGN && len(body.Lhs) == 1 && len(body.Rhs) == 1 {
+					oObj, okObj := info.ObjectOf(oID), info.ObjectOf(okID)
+					sel, isSel := ast.Unparen(body.Rhs[0]).(*ast.SelectorExpr)
+					_, vObj, err := w.lval(body.Lhs[0])
+					if isSel && w.is(sel.X, oObj) && err == nil && vObj != nil {
+						// condition: ok && o != nil && o.F != nil  (any order of the three conjuncts)
+						var conj []string
+						var flat func(x ast.Expr)
+						flat = func(x ast.Expr) {
+							x = ast.Unparen(x)
+							if be, isB := x.(*ast.BinaryExpr); isB && be.Op == token.LAND {
+								flat(be.X)
+								flat(be.Y)
+								return
+							}
+							conj = append(conj, types.ExprString(x))
+						}
+						flat(t.Cond)
+						sort.Strings(conj)
+						want := []string{okObj.Name(), oObj.Name() + " != nil", oObj.Name() + "." + sel.Sel.Name + " != nil"}
+						sort.Strings(want)
+						src, err2 := w.term(ta.X)
+						if strings.Join(conj, "&") == strings.Join(want, "&") && err2 == nil {
+							wt := tname(info.TypeOf(ta.Type))
+							prev := w.vals[vObj]
+							w.vals[vObj] = "merged(" + src + " as " + wt + "." + sel.Sel.Name + ", " + prev + ")"
+							return nil
+						}
+					}
+				}
+			}
+		}
 		return und("if with init %s", nodeStr(t.Init))
 	}
 	// error guards: recognised forms are skipped (their adequacy is BND's obligation)
@@ -1244,6 +1283,13 @@ func extractUnmarshal(m *model.Msg) (*decModel, error) {
 		case *ast.IfStmt:
 			if be, ok := t.Cond.(*ast.BinaryExpr); ok && be.Op == token.EQL && w.is(be.X, w.msgV) && w.opts == nil {
 				continue
+			}
+			// if input.Depth <= 0 { return …, err }
+			if be, ok := t.Cond.(*ast.BinaryExpr); ok && be.Op == token.LEQ && isZero(info, be.Y) && w.isErrRet(t.Body) && t.Else == nil {
+				if sel, ok := ast.Unparen(be.X).(*ast.SelectorExpr); ok && sel.Sel.Name == "Depth" && w.is(sel.X, inputVar) && w.opts == nil {
+					dm.HasDepth = true
+					continue
+				}
 			}
 		case *ast.ForStmt:
 			loop = t
